@@ -52,13 +52,13 @@ func dummyFrom() *tss.PartyID {
 // ---------------------------------------------------------------- Schnorr / Schnorr-V
 
 type c10Schnorr struct {
-	Curve    string
-	V        bool // Schnorr-V variant
-	X, L     H    // witness(es)
-	XC       string
-	RK       H // for V: R = RK*G
-	Sess     B
-	SessC    string
+	Curve string
+	V     bool // Schnorr-V variant
+	X, L  H    // witness(es)
+	XC    string
+	RK    H // for V: R = RK*G
+	Sess  B
+	SessC string
 }
 
 func genC10Schnorr(t *rapid.T) c10Schnorr {
@@ -193,11 +193,11 @@ func TestC10Schnorr(t *testing.T) {
 // ---------------------------------------------------------------- DLN
 
 type c10DLN struct {
-	Set   int
-	Dir   string // "h1->h2" (alpha) | "h2->h1" (beta) | "fresh"
-	X     H      // fresh witness
-	XC    string
-	Wire  string // "serialize" | "message"
+	Set  int
+	Dir  string // "h1->h2" (alpha) | "h2->h1" (beta) | "fresh"
+	X    H      // fresh witness
+	XC   string
+	Wire string // "serialize" | "message"
 }
 
 func genC10DLN(t *rapid.T) c10DLN {
@@ -288,14 +288,14 @@ func TestC10DLN(t *testing.T) {
 // ---------------------------------------------------------------- Paillier key proof, mod proof, fac proof
 
 type c10Key struct {
-	Sys    string // paillier | mod | fac
-	Set    int    // prover's Paillier key
-	VSet   int    // verifier's ring-Pedersen set (fac)
-	Curve  string
-	K      H // party key (paillier proof)
-	PubK   H
-	Sess   B
-	SessC  string
+	Sys   string // paillier | mod | fac
+	Set   int    // prover's Paillier key
+	VSet  int    // verifier's ring-Pedersen set (fac)
+	Curve string
+	K     H // party key (paillier proof)
+	PubK  H
+	Sess  B
+	SessC string
 }
 
 func genC10Key(t *rapid.T) c10Key {
@@ -396,18 +396,18 @@ func TestC10KeyProofs(t *testing.T) {
 // ---------------------------------------------------------------- MtA proofs: Alice range, Bob, Bob-WC
 
 type c10MtA struct {
-	Sys    string // range | bob | bobwc
-	Curve  string
-	ASet   int // Alice's Paillier key
-	VSet   int // verifier's ring-Pedersen parameters
-	M      H   // Alice's plaintext / c1 plaintext
-	MC     string
-	X      H // Bob's multiplier
-	XC     string
-	Y      H // Bob's mask < q^5
-	YC     string
-	Sess   B
-	SessC  string
+	Sys   string // range | bob | bobwc
+	Curve string
+	ASet  int // Alice's Paillier key
+	VSet  int // verifier's ring-Pedersen parameters
+	M     H   // Alice's plaintext / c1 plaintext
+	MC    string
+	X     H // Bob's multiplier
+	XC    string
+	Y     H // Bob's mask < q^5
+	YC    string
+	Sess  B
+	SessC string
 }
 
 func genC10MtA(t *rapid.T) c10MtA {
